@@ -302,6 +302,150 @@ def _r03h(rep):
                  (bad_run[0].message if bad_run else "") + ": the points returned as equivalents of q differ from q by a vector that is not a reciprocal lattice vector unless the change of basis is a signed permutation (cubic, hexagonal and simple orthogonal cells); D there has another spectrum", line=getattr(bad_run[0].node, "lineno", runf.lineno) if bad_run else runf.lineno)
 
 
+def _r03i(rep):
+    """The reciprocal lattice vectors of the Ewald sum: the integer triplets run over the whole cube [-g_rad, g_rad]^3."""
+    rep.rule("R03i", "the reciprocal-space sum of the Gonze-Lee dipole-dipole term runs over integer triplets that fill the cube [-g_rad, g_rad]^3 (interval evaluation of the index construction: ndindex / mgrid / arange / range / product, shifts and reshapes): a half-open range such as mgrid[-g:g] loses the shell at +g, the set of G is then no longer closed under G -> -G and the dipole-dipole matrix is neither Hermitian-symmetric in q -> -q nor converged as the cutoff says", 1)
+    fn = core.find_def(PYDM, "DynamicalMatrixGL._get_G_vec_list")
+    gpar = next((a.arg for a in fn.args.args if a.arg != "self"), None)
+    if gpar is None:
+        raise AnalysisError("R03i: _get_G_vec_list lost its radius parameter")
+    g = sp.Symbol(gpar, integer=True, positive=True)
+    defs = {}
+    for st in ast.walk(fn):
+        if isinstance(st, ast.Assign) and len(st.targets) == 1 and isinstance(st.targets[0], ast.Name):
+            defs.setdefault(st.targets[0].id, []).append(st.value)
+
+    class Unknown(Exception):
+        pass
+
+    def scal(e):
+        if isinstance(e, ast.Constant) and isinstance(e.value, int) and not isinstance(e.value, bool):
+            return sp.Integer(e.value)
+        if isinstance(e, ast.Name):
+            if e.id == gpar:
+                return g
+            if len(defs.get(e.id, [])) == 1:
+                return scal(defs[e.id][0])
+            raise Unknown(f"scalar '{e.id}'")
+        if isinstance(e, ast.UnaryOp) and isinstance(e.op, ast.USub):
+            return -scal(e.operand)
+        if isinstance(e, ast.BinOp) and isinstance(e.op, (ast.Add, ast.Sub, ast.Mult)):
+            a, b = scal(e.left), scal(e.right)
+            return a + b if isinstance(e.op, ast.Add) else (a - b if isinstance(e.op, ast.Sub) else a * b)
+        if isinstance(e, ast.Call) and core.src(e.func) == "int" and len(e.args) == 1:
+            return scal(e.args[0])
+        raise Unknown(core.norm(core.src(e), 40))
+
+    def rng(args):
+        """(lo, hi) of range / arange arguments"""
+        if len(args) == 1:
+            return sp.Integer(0), scal(args[0]) - 1
+        if len(args) == 2 or (len(args) == 3 and isinstance(args[2], ast.Constant) and args[2].value == 1):
+            return scal(args[0]), scal(args[1]) - 1
+        raise Unknown("stepped range")
+
+    def grid(e, depth=0):
+        """[(lo, hi)] per axis of an integer grid expression"""
+        if depth > 12:
+            raise Unknown("depth")
+        if isinstance(e, ast.Name):
+            if len(defs.get(e.id, [])) == 1:
+                return grid(defs[e.id][0], depth + 1)
+            raise Unknown(f"'{e.id}'")
+        if isinstance(e, ast.Attribute) and e.attr == "T":
+            return grid(e.value, depth + 1)
+        if isinstance(e, ast.BinOp) and isinstance(e.op, (ast.Add, ast.Sub)):
+            try:
+                sh = scal(e.right)
+                base = grid(e.left, depth + 1)
+            except Unknown:
+                if isinstance(e.op, ast.Sub):
+                    raise
+                sh = scal(e.left)
+                base = grid(e.right, depth + 1)
+            sgn = 1 if isinstance(e.op, ast.Add) else -1
+            return [(lo + sgn * sh, hi + sgn * sh) for lo, hi in base]
+        if isinstance(e, ast.Subscript) and core.src(e.value) in ("np.mgrid", "np.ogrid"):
+            parts = e.slice.elts if isinstance(e.slice, ast.Tuple) else [e.slice]
+            out = []
+            for p_ in parts:
+                if not isinstance(p_, ast.Slice) or p_.lower is None or p_.upper is None:
+                    raise Unknown("mgrid slice")
+                if p_.step is not None and not (isinstance(p_.step, ast.Constant) and p_.step.value == 1):
+                    raise Unknown("mgrid step")
+                out.append((scal(p_.lower), scal(p_.upper) - 1))
+            return out
+        if isinstance(e, ast.Call):
+            f = core.src(e.func)
+            if f in ("np.array", "np.asarray", "list", "tuple", "np.ascontiguousarray", "np.stack", "np.vstack") and e.args:
+                return grid(e.args[0], depth + 1)
+            if isinstance(e.func, ast.Attribute) and e.func.attr in ("reshape", "astype", "copy", "transpose"):
+                return grid(e.func.value, depth + 1)
+            if f == "np.ndindex":
+                a = e.args[0].elts if len(e.args) == 1 and isinstance(e.args[0], (ast.Tuple, ast.List)) else e.args
+                return [(sp.Integer(0), scal(x) - 1) for x in a]
+            if f in ("np.arange", "range"):
+                return [rng(e.args)]
+            if f in ("np.meshgrid",):
+                out = []
+                for a in e.args:
+                    out += grid(a, depth + 1)
+                return out
+            if f in ("itertools.product", "product"):
+                rep_ = next((k.value for k in e.keywords if k.arg == "repeat"), None)
+                out = []
+                for a in e.args:
+                    out += grid(a, depth + 1)
+                if rep_ is not None:
+                    out = out * int(scal(rep_))
+                return out
+            if f == "np.indices":
+                a = e.args[0].elts if isinstance(e.args[0], (ast.Tuple, ast.List)) else None
+                if a:
+                    return [(sp.Integer(0), scal(x) - 1) for x in a]
+        if isinstance(e, ast.Subscript) and core.src(e.value).startswith("np.r_"):
+            parts = e.slice.elts if isinstance(e.slice, ast.Tuple) else [e.slice]
+            out = []
+            for p_ in parts:
+                if isinstance(p_, ast.Constant) and isinstance(p_.value, str):
+                    continue
+                out += grid(p_, depth + 1)
+            return out
+        raise Unknown(core.norm(core.src(e), 50))
+
+    # the integer operand of the product with the reciprocal lattice in the returned expression
+    rets = [r for r in ast.walk(fn) if isinstance(r, ast.Return) and r.value is not None]
+    if not rets:
+        raise AnalysisError("R03i: _get_G_vec_list returns nothing")
+    ints = []
+    for r in rets:
+        v = r.value
+        while isinstance(v, ast.Attribute) and v.attr == "T":
+            v = v.value
+        if isinstance(v, ast.Call) and isinstance(v.func, ast.Attribute) and v.func.attr in ("T", "copy"):
+            v = v.func.value
+        ops = []
+        if isinstance(v, ast.BinOp) and isinstance(v.op, ast.MatMult):
+            ops = [v.left, v.right]
+        elif isinstance(v, ast.Call) and core.src(v.func) in ("np.dot", "np.matmul") and len(v.args) == 2:
+            ops = list(v.args)
+        cand = [o for o in ops if "_rec_lat" not in core.src(o)]
+        if len(cand) != 1:
+            rep.unknown(f"R03i: form of the value returned by _get_G_vec_list not recognised ('{core.norm(core.src(r.value), 60)}')")
+            continue
+        ints.append((r, cand[0]))
+    for r, e in ints:
+        try:
+            axes = grid(e)
+        except Unknown as ex:
+            rep.unknown(f"R03i: the integer triplets of _get_G_vec_list are built in a way that is not evaluated ({ex})")
+            continue
+        shown = ", ".join(f"[{sp.simplify(lo)}, {sp.simplify(hi)}]" for lo, hi in axes)
+        ok = len(axes) == 3 and all(sp.simplify(lo + g) == 0 and sp.simplify(hi - g) == 0 for lo, hi in axes)
+        rep.instance("R03i", PYDM, "DynamicalMatrixGL._get_G_vec_list", f"index ranges per axis: {shown}", ok,
+                     f"the integer triplets of the reciprocal-space sum run over {shown} per axis instead of [-{gpar}, {gpar}] on three axes: the set of G vectors is not the cube the cutoff describes (a missing shell on one side makes the set asymmetric under G -> -G), so the dipole-dipole part of D(q) is not the converged Ewald sum and D(-q) = conj(D(q)) no longer holds term by term", line=r.lineno)
+
+
 _run_main = run
 
 
@@ -315,11 +459,15 @@ def run(rep: core.Report):
     c13.tolerance_degree(rep, "R03f")
     _r03g(rep)
     _r03h(rep)
+    _r03i(rep)
 
 
 def selftest():
     V = []
     b = lambda name, file, old, new, rule, expect="", **kw: V.append(dict(name=name, kind="break", file=file, old=old, new=new, rule=rule, expect=expect, **kw))
+    n = lambda name, file, old, new, **kw: V.append(dict(name=name, kind="neutral", file=file, old=old, new=new, **kw))
+    b("G vectors from a half-open mgrid", PYDM, "        npts = g_rad * 2 + 1\n        grid = np.array(list(np.ndindex((npts, npts, npts)))) - g_rad\n        return grid @ self._rec_lat.T", "        grid = np.mgrid[-g_rad:g_rad, -g_rad:g_rad, -g_rad:g_rad]\n        return grid.reshape(3, -1).T @ self._rec_lat.T", "R03i", "_get_G_vec_list")
+    n("G vectors from a closed mgrid", PYDM, "        npts = g_rad * 2 + 1\n        grid = np.array(list(np.ndindex((npts, npts, npts)))) - g_rad\n        return grid @ self._rec_lat.T", "        grid = np.mgrid[-g_rad : g_rad + 1, -g_rad : g_rad + 1, -g_rad : g_rad + 1]\n        return grid.reshape(3, -1).T @ self._rec_lat.T")
     b("Brillouin-zone back transform with the transpose of the forward map", "phonopy/structure/brillouin_zone.py", "        reduced_qpoints = np.dot(qpoints, self._tmat_inv.T)", "        reduced_qpoints = np.dot(qpoints, self._tmat)", "R03h", "BrillouinZone.run")
     b("reciprocal lattice handed to the kernels as rows", PYDM, "np.linalg.inv(dm.primitive.cell), dtype=\"double\", order=\"C\")", "np.linalg.inv(dm.primitive.cell.T), dtype=\"double\", order=\"C\")", "R03g", "_extract_params")
     b("make_Hermitian only on the serial arm", DYN, "                              i, j);\n            }\n        }\n    }\n\n    make_Hermitian(dynamical_matrix, num_patom * 3);", "                              i, j);\n            }\n        }\n        make_Hermitian(dynamical_matrix, num_patom * 3);\n    }\n", "R03a", "dym_get_dynamical_matrix_at_q")
